@@ -24,6 +24,66 @@ type Ev struct {
 	Depth int
 }
 
+// Six event types with the same shape: nested publishes move from type to
+// type (Case.Types), i.e. from routing shard to routing shard in both
+// directions.
+type (
+	E0 Ev
+	E1 Ev
+	E2 Ev
+	E3 Ev
+	E4 Ev
+	E5 Ev
+)
+
+type evType struct {
+	sub    func(bus *eventbus.EventBus, fn func(Ev), so ...eventbus.SubscribeOption)
+	subCtx func(bus *eventbus.EventBus, fn func(Ev), so ...eventbus.SubscribeOption)
+	pub    func(bus *eventbus.EventBus, e Ev)
+}
+
+func mkType[T ~struct {
+	ID    int
+	Depth int
+}]() evType {
+	return evType{
+		sub: func(bus *eventbus.EventBus, fn func(Ev), so ...eventbus.SubscribeOption) {
+			eventbus.Subscribe(bus, func(e T) { fn(Ev(e)) }, so...)
+		},
+		subCtx: func(bus *eventbus.EventBus, fn func(Ev), so ...eventbus.SubscribeOption) {
+			eventbus.SubscribeContext(bus, func(_ context.Context, e T) { fn(Ev(e)) }, so...)
+		},
+		pub: func(bus *eventbus.EventBus, e Ev) { eventbus.Publish(bus, T(e)) },
+	}
+}
+
+var evTypes = []evType{mkType[Ev](), mkType[E0](), mkType[E1](), mkType[E2](), mkType[E3](), mkType[E4](), mkType[E5]()}
+
+// typeAt: the event type used for publishes at nesting depth d.
+func (c *Case) typeAt(d int) evType {
+	if len(c.Types) == 0 {
+		return evTypes[0]
+	}
+	return evTypes[c.Types[d%len(c.Types)]%len(evTypes)]
+}
+
+// typesInUse lists the distinct types of the case, the top-level one first.
+func (c *Case) typesInUse() []evType {
+	if len(c.Types) == 0 {
+		return evTypes[:1]
+	}
+	seen := map[int]bool{}
+	var out []evType
+	for d := 0; d <= c.MaxDepth; d++ {
+		i := c.Types[d%len(c.Types)] % len(evTypes)
+		if !seen[i] {
+			seen[i] = true
+			out = append(out, evTypes[i])
+		}
+	}
+	return out
+}
+
 // H is an asynchronous handler.
 type H struct {
 	Ctx     bool `json:"ctx,omitempty"`
@@ -46,6 +106,9 @@ type Case struct {
 	NoCloser  bool   `json:"no_closer,omitempty"` // store without Close
 	NoStore   bool   `json:"no_store,omitempty"`
 	Ambient   int    `json:"ambient,omitempty"`
+	// Types: event type (index into evTypes) used at nesting depth d is
+	// Types[d % len]; empty = one type for everything.
+	Types []int `json:"types,omitempty"`
 }
 
 type closeStore struct {
@@ -166,7 +229,7 @@ func bubble(c *Case, o *vkit.Outcome) {
 		}
 		if e.Depth < c.MaxDepth && !h.Once {
 			for k := 0; k < h.Nest; k++ {
-				eventbus.Publish(bus, Ev{ID: int(nextID.Add(1)), Depth: e.Depth + 1})
+				c.typeAt(e.Depth+1).pub(bus, Ev{ID: int(nextID.Add(1)), Depth: e.Depth + 1})
 			}
 		}
 		completed.Add(1)
@@ -177,18 +240,28 @@ func bubble(c *Case, o *vkit.Outcome) {
 		if h.Once {
 			so = append(so, eventbus.Once())
 		}
-		if h.Ctx {
-			eventbus.SubscribeContext(bus, func(_ context.Context, e Ev) { body(hi, e) }, so...)
-		} else {
-			eventbus.Subscribe(bus, func(e Ev) { body(hi, e) }, so...)
+		// every type in use gets the same handler set; a Once handler is
+		// subscribed for the top-level type only (it is claimed by the first
+		// top-level publish and never nests)
+		for ti, et := range c.typesInUse() {
+			if h.Once && ti > 0 {
+				continue
+			}
+			if h.Ctx {
+				et.subCtx(bus, func(e Ev) { body(hi, e) }, so...)
+			} else {
+				et.sub(bus, func(e Ev) { body(hi, e) }, so...)
+			}
 		}
 	}
 	var syncCalls atomic.Int32
 	if c.SyncToo {
-		eventbus.Subscribe(bus, func(e Ev) { syncCalls.Add(1) })
+		for _, et := range c.typesInUse() {
+			et.sub(bus, func(e Ev) { syncCalls.Add(1) })
+		}
 	}
 	for p := 0; p < c.Pubs; p++ {
-		eventbus.Publish(bus, Ev{ID: p + 1})
+		c.typeAt(0).pub(bus, Ev{ID: p + 1})
 	}
 	exp := int32(m.expected)
 	openGate := func() { close(gate) }
@@ -364,6 +437,9 @@ func bubble(c *Case, o *vkit.Outcome) {
 	}
 	if nested {
 		o.Class("nested_async_work")
+		if len(c.typesInUse()) >= 2 {
+			o.Class("nested_async_work_across_event_types")
+		}
 	}
 	if m.gated {
 		o.Class("gated")
